@@ -95,6 +95,10 @@ def generate(ck):
         for seq in itertools.product(ext_ops, repeat=n):
             if "simS" in seq:
                 descs.append({"cls": "single", "cfg": 0, "seq": list(seq), "extension": True})
+    for n in range(3, 5):
+        for seq in itertools.product(("simA", "simB", "rfd", "fld", "interp"), repeat=n):
+            if "fld" in seq and "rfd" in seq and seq.index("rfd") < len(seq) - 1 - seq[::-1].index("fld") < len(seq) - 1 and seq[0].startswith("sim"):
+                descs.append({"cls": "single", "cfg": 0, "seq": list(seq), "extension": True})
     for n in range(2, 4):
         for seq in itertools.product(("simS", "simSX", "rf", "rfd", "interp"), repeat=n):
             if "simSX" in seq and "simS" in seq:
@@ -163,6 +167,12 @@ def _apply(obj, op, cfg, held=None):
                 return ("ok", None)
             if op == "sim1":
                 obj.simulate(np.array([0.25]))
+                return ("ok", None)
+            if op == "fld":
+                # the fluid object the reservoir holds gets a corrected density column (re-assigned on
+                # the same object): everything asked afterwards uses the table as it is NOW
+                rho_ = np.asarray(obj.fluid.pvt_props["density"], dtype=float)
+                obj.fluid.pvt_props["density"] = rho_ * (rho_ / rho_.max()) ** 0.3  # (not a mere rescaling: the recovery is a ratio)
                 return ("ok", None)
             if op == "simAs":
                 # report dates only: a strict sub-sampling of grid A (every stamp occurs in A, first stamp
@@ -237,13 +247,29 @@ def _same_result(r1, r2):
 
 
 def run_case(ck, desc):
+    if "fld" in desc["seq"]:
+        # (the fluid object is shared by the cases of a process: its density column is restored afterwards)
+        _fresh(desc["cls"], desc["cfg"])
+        fl_ = _FLUIDS[desc["cfg"]]
+        keep_ = np.array(fl_.pvt_props["density"], dtype=float, copy=True)
+        try:
+            return _run_case(ck, desc)
+        finally:
+            fl_.pvt_props["density"] = keep_
+    return _run_case(ck, desc)
+
+
+def _run_case(ck, desc):
     cls, cfg, seq = desc["cls"], desc["cfg"], desc["seq"]
     obj = _fresh(cls, cfg)
     log = []
     held = []
+    dens_at = []  # (sequences with "fld": the shared fluid's density column as it was after each call)
     for op in seq:
         res = _apply(obj, op, cfg, held)
         log.append((op, res, _state(obj)))
+        if "fld" in seq:
+            dens_at.append(np.array(obj.fluid.pvt_props["density"], dtype=float, copy=True))
         ck.count("calls_logged")
     # an interpolator that was handed out is a value: asked again after the rest of the history it
     # answers what it answered when it was new ("repeating a call ... returns the same result")
@@ -269,22 +295,41 @@ def run_case(ck, desc):
         # an earlier call must not be able to hide behind an identical fresh history)
         start = last if last is not None else 0
         tail = [seq[start]] if last is not None else []
-        tail += [o for o in seq[start + (1 if last is not None else 0) : k] if o in ("rf", "rfd")]
-        if op == "oth":
-            ck.count("calls_on_another_object_in_between")
+        tail_at = [start] if last is not None else []  # original position of every replayed call
+        for j_ in range(start + (1 if last is not None else 0), k):
+            if seq[j_] in ("rf", "rfd"):
+                tail.append(seq[j_])
+                tail_at.append(j_)
+        if op in ("oth", "fld"):
+            ck.count("calls_on_another_object_in_between" if op == "oth" else "fluid_table_edits_in_between")
         elif not (last is not None and k == last):
             tail.append(seq[k])
+            tail_at.append(k)
         if last is not None and log[last][1][0] == "raise":
             # the latest simulate itself failed (only possible in the extension); nothing to replay
             continue
         fresh = _fresh(cls, cfg)
         fres = None
-        for op2 in tail:
+        for op2, j_ in zip(tail, tail_at):
+            if dens_at:
+                fresh.fluid.pvt_props["density"] = dens_at[j_].copy()  # the table as it was when that call was made
             fres = _apply(fresh, op2, cfg)
-        if op == "oth":
+        if dens_at:
+            fresh.fluid.pvt_props["density"] = dens_at[k].copy()
+        if op in ("oth", "fld"):
             fres = res  # nothing was asked of this object; its stored state is what is compared
         fst = _state(fresh)
         ck.count("fresh_replays")
+        if dens_at and op == "rfd" and res[0] == "ok" and st["pseudopressure"] is not None:
+            # (a memo kept on the object would be rebuilt identically on the replay object: the density
+            # recovery is also computed by the harness from the stored field and the table AS IT IS NOW)
+            ms_ = np.asarray(obj.fluid.pvt_props["m-scaled"], dtype=float)
+            o_ = np.argsort(ms_, kind="stable")
+            mass_ = np.sum(np.interp(st["pseudopressure"], ms_[o_], dens_at[k][o_]), axis=1)
+            own_ = 1.0 - mass_ / mass_[0]
+            inside = bool(st["pseudopressure"].min() >= ms_.min() and st["pseudopressure"].max() <= ms_.max())
+            if inside and not ck.margin("density recovery = harness's own from the field and the current table", float(np.max(np.abs(res[1] - own_))), 1e-10):
+                ck.violation("density-recovery-uses-the-current-fluid-table", {"after_call": k, "history": seq[: k + 1], "max_abs_diff": float(np.max(np.abs(res[1] - own_)))}, desc)
         bad = []
         if not _same_result(res, fres):
             bad.append("result")
